@@ -366,12 +366,76 @@ fn run_prim(g: &mut Rng, which: u64) -> bool {
     }
 }
 
+// ---- power operator (both representations; exponents that fit usize; negative exponents with and without x/z) ----------
+fn ref_pow(x: &Opd, y: &Opd, w: usize, signed: bool) -> Vec<u8> {
+    let a = ext(x, w, signed);
+    let yb = obits(y);
+    if anyx(&yb) { return allx(w); }                                   // x/z anywhere in the exponent, sign position included
+    let y_neg = osigned(y) && yb[yb.len() - 1] == 1;
+    if y_neg {
+        let one: Vec<u8> = (0..w).map(|k| (k == 0) as u8).collect();
+        if anyx(&a) || is_zero(&a) { return allx(w); }
+        if a == one { return one; }
+        if signed && a.iter().all(|b| *b == 1) { return if yb[0] == 1 { vec![1; w] } else { one }; }
+        return vec![0; w];
+    }
+    if anyx(&yb) || anyx(&a) { return allx(w); }
+    // square and multiply, everything modulo 2^w (the sign of the base does not matter modulo 2^w)
+    let mut acc: Vec<u8> = (0..w).map(|k| (k == 0) as u8).collect();
+    for i in (0..yb.len()).rev() {
+        acc = mul2(&acc, &acc);
+        if yb[i] == 1 { acc = mul2(&acc, &a); }
+    }
+    acc
+}
+fn run_pow(g: &mut Rng, small: bool) -> bool {
+    let w = if small { 1 + match g.below(5) { 0 => 63, 1 => 7, _ => g.below(64) } as usize } else { 65 + match g.below(5) { 0 => 0, 1 => 63, _ => g.below(100) } as usize };
+    let fourstate = g.below(4) == 0;
+    let (x, mut e): (Opd, u64) = match g.below(4) {
+        // -(2^k): the magnitude power vanishes modulo 2^w once k*e >= w
+        0 if w >= 2 => { let k = 1 + g.below((w - 1) as u64) as usize; (Opd::Sized(V4 { bits: (0..w).map(|i| (i >= k) as u8).collect(), signed: true }), ((w / k) as u64 + g.below(3)) | 1) }
+        1 => (gen_opd(g, w, 1, fourstate, false), g.below(70)),
+        2 => (gen_opd(g, w, 1, fourstate, false), g.below(2 * w as u64 + 3)),
+        _ => (gen_opd(g, w, 1, fourstate, false), g.next() >> (24 + g.below(40))),
+    };
+    if g.below(6) == 0 { e |= 1; }
+    let signed = osigned(&x) && g.below(4) != 0;
+    // exponent operand: e in ew bits, unsigned or signed-but-non-negative, or a negative exponent (sign position set, no x/z)
+    let need = (64 - e.leading_zeros() as usize).max(1);
+    let y = match g.below(6) {
+        0 => { let ew = 1 + g.below(70) as usize; let fs = g.below(3) == 0; let mut b = gen_bits(g, ew, fs); b[ew - 1] = if g.below(6) == 0 { 3 } else { 1 }; Opd::Sized(V4 { bits: b, signed: true }) }   // negative(-looking) exponent, sometimes with x/z
+        1 => { let ew = 1 + g.below(70) as usize; let b = gen_bits(g, ew, true); Opd::Sized(V4 { bits: b, signed: g.below(2) == 0 }) }
+        _ => { let ew = need + 1 + g.below(20) as usize; Opd::Sized(V4 { bits: (0..ew).map(|i| if i < 64 { (e >> i & 1) as u8 } else { 0 }).collect(), signed: g.below(2) == 0 }) }
+    };
+    // keep the exponent within usize (63 bits): the code saturates beyond that
+    if let Opd::Sized(v) = &y { if !anyx(&v.bits) && !(osigned(&y) && v.bits[v.bits.len() - 1] == 1) && v.bits.iter().enumerate().any(|(i, b)| i >= 63 && *b == 1) { return true; } }
+    let case = format!("{{\"fn\":\"{}\",\"op\":\"Pow\",\"x\":\"{}\",\"y\":\"{}\",\"width\":{},\"signed\":{}", if small { "arm_pow_u64" } else { "arm_pow_big" }, opd_str(&x), opd_str(&y), w, signed);
+    vp_case(format!("{}}}", case));
+    let expect = ref_pow(&x, &y, w, signed);
+    let mut cache = MaskCache::default();
+    let r = Op::Pow.eval_value_binary(&to_value(&x), &to_value(&y), w, signed, &mut cache);
+    let (bits, big, junk) = from_value(&r);
+    let ok = bits == expect && big == (w > 64) && !junk;
+    if !ok {
+        println!("FOUND {},\"expected\":\"{}'b{}\",\"actual\":\"{}'b{}\",\"actual_is_biguint\":{},\"actual_bits_beyond_width\":{}}}", case, w, fmt4(&expect), bits.len(), fmt4(&bits), big, junk);
+    }
+    ok
+}
+
 fn main() {
     let mut g = Rng(vp_seed());
     vp_hook();
     let sel = std::env::args().nth(2).unwrap_or("all".to_string());
     let n: u64 = std::env::args().nth(3).and_then(|s| s.parse().ok()).unwrap_or(3000);
     let mut cases = 0u64;
+    let pow_sel = matches!(sel.as_str(), "arm_pow_big" | "arm_pow_u64" | "pow_mod_width" | "ValueU64::to_i64");
+    if pow_sel || sel == "all" {
+        for i in 0..(if pow_sel { 6 * n } else { 2 * n }) {
+            cases += 1;
+            if !run_pow(&mut g, if sel == "arm_pow_big" { false } else if sel == "arm_pow_u64" || sel == "ValueU64::to_i64" { true } else { i % 2 == 0 }) { std::process::exit(1); }
+        }
+        if pow_sel { println!("NONE {}", cases); return; }
+    }
     let known = BINARY.iter().chain(UNARY.iter()).any(|(nm, _)| *nm == sel);
     // value primitives: run for a failed primitive (any non-arm function name) and in the full run
     let prims = !known;
